@@ -62,7 +62,8 @@ def py_len(interp, st, v, node=None):
     from .chars import VChars
     from .segs import VSegs, total_len
     if isinstance(v, VSegs):
-        n = total_len(v.segs)
+        from .segs import cum_lens
+        n = cum_lens(v.segs, st)[-1]        # uses lengths asserted in the path condition
         yield st, (VInt(n) if isinstance(n, int) else mk_int(n))
     elif isinstance(v, VChars):
         yield st, VInt(len(v.codes))
@@ -1067,6 +1068,9 @@ def m_unhexlify(interp, st, args, kwargs, node=None):
         except binascii.Error as e:
             yield st, exc(binascii.Error, str(e))
         return
+    if z3.is_app(v.v) and v.v.decl().name() == 'hexlify':
+        yield st, VBytes(v.v.arg(0))        # unhexlify(hexlify(x)) == x
+        return
     bm.USED_UF.add('hexlify')
     bm.note(interp, 'unhexlify')
     hexre = z3.Star(z3.Union(z3.Range(mk_str('0'), mk_str('9')), z3.Range(mk_str('a'), mk_str('f')),
@@ -1425,6 +1429,16 @@ def str_method(interp, st, recv, name, args, kwargs, node):
         for s1, items in interp.iter_concrete(st, args[0], node):
             if isinstance(items, Raise):
                 yield s1, items
+                continue
+            from .segs import VSegs, segs_of, from_segs
+            if isinstance(recv, VBytes) and any(isinstance(i, VSegs) for i in items) and \
+                    all(isinstance(i, (VBytes, VSegs)) for i in items):
+                segs = []
+                for k, it in enumerate(items):
+                    if k:
+                        segs += segs_of(recv)
+                    segs += segs_of(it)
+                yield s1, from_segs(segs)
                 continue
             if not all(same(i) for i in items):
                 yield s1, exc(TypeError, "sequence item: expected str/bytes instance")
